@@ -55,7 +55,7 @@ pub fn substr_case(n: usize, with_len: bool) {
     std::mem::forget(vs);
 }
 
-//@ harness: c16_wit tier=quick timeout=600 kind=witness mem=8
+//@ harness: c16_wit tier=quick timeout=600 kind=witness mem=12
 //@ encodes: op::string::substr
 //@ bound: vacuity twin of c16_substr_n1_2
 //@ cuts: strcount
